@@ -170,7 +170,7 @@ pub fn spec() -> PropSpec {
                 }
                 v
             }, eval),
-            PropCheck::new("random", |_ctx| (gen::edge_u32(), gen::edge_u32()).prop_map(|(a, d)| Pair { a, d }).boxed(), 1_000_000, 50_000_000, eval),
+            PropCheck::new("random", |_ctx| (gen::edge_u32(), gen::edge_u32()).prop_map(|(a, d)| Pair { a, d }).boxed(), 1_000_000, 20_000_000, eval),
             PropCheck::new("random-near-half", |_ctx| (any::<u32>(), -3i64..4).prop_map(|(a, k)| Pair { a, d: (HALF as i64 + k) as u32 }).boxed(), 200_000, 5_000_000, eval),
         ],
     }
